@@ -885,27 +885,43 @@ def shift_scenario(g, b):
         return lines
     n = d.int(1, 4)
     ps = g.param_names(n, [])
-    lines = [name + g.sp() + "macro" + g.sp() + ",".join(ps)]
+    # "holes": some arguments of the call are empty (also at the position of the last parameter, also among the
+    # excess arguments); every use is written  p+0  so that an empty value is still an expression (+0)
+    holes = d.bool(0.45)
+    dflt = [str(d.int(1, 9)) if holes and d.bool(0.3) else "" for _ in ps]
+    lines = [name + g.sp() + "macro" + g.sp() + ",".join(p + ("=" + v if v else "") for p, v in zip(ps, dflt))]
     use_argc = d.bool(0.5)
     use_all = d.bool(0.5)
     for step in range(d.int(1, 4)):
-        items = [g.spell(d.choice(ps)) for _ in range(d.int(1, 3))]
+        items = [g.spell(d.choice(ps)) + ("+0" if holes else "") for _ in range(d.int(1, 3))]
         if use_argc and d.bool(0.6):
             items.append(g.spell_any("ARGCOUNT"))
         lines.append(g.stmt(bd, ",".join(items)))
         if use_all and d.bool(0.4):
-            lines.append(g.stmt("if", "%s>0" % g.spell_any("ARGCOUNT")))
-            lines.append(g.stmt(bd, g.spell_any("ALLARGS")))
-            lines.append(g.stmt("endif"))
+            if holes:
+                lines.append(g.stmt(bd, '"<%s>"' % "ALLARGS"))
+            else:
+                lines.append(g.stmt("if", "%s>0" % g.spell_any("ARGCOUNT")))
+                lines.append(g.stmt(bd, g.spell_any("ALLARGS")))
+                lines.append(g.stmt("endif"))
         if d.bool(0.2):
             lines += [g.stmt("rept", str(d.int(1, 2))), g.stmt("shift"), b.endm()]
         else:
             lines.append(g.stmt("shift"))
+    if holes:
+        lines.append(g.stmt(bd, ",".join(g.spell(p) + "+0" for p in ps)))
     lines.append(b.endm())
     for _ in range(d.int(1, 2)):
         # enough arguments that every parameter still has a value after the last SHIFT
         m = n + d.int(0, 3) + (6 if d.bool(0.8) else 0)
-        lines.append(g.stmt(g.spell(name), ",".join(str(d.int(0, 99)) for _ in range(m))))
+        args = [str(d.int(0, 99)) for _ in range(m)]
+        if holes:
+            for i in range(m):
+                if d.bool(0.5 if i == n - 1 else 0.2):
+                    args[i] = ""
+            if args[-1] == "":
+                args[-1] = str(d.int(0, 99))       # a trailing comma is a different matter (empty last argument)
+        lines.append(g.stmt(g.spell(name), ",".join(args)))
     return lines
 
 
@@ -1444,6 +1460,12 @@ def fixed_cases(tier):
     out.append(mk("z80", Z + "m macro a,b\n shift\n db a,b\n endm\n m 1,2,3\n", kind="fix-regress"))
     out.append(mk("z80", Z + "m macro a,b\n db ARGCOUNT\n shift\n db a,ARGCOUNT\n db ALLARGS\n endm\n m 1,2,3,4\n", kind="fix-regress"))
     out.append(mk("z80", Z + 'm macro a,b\n shift\n db "A","B",0\n endm\n m 1,2\n', kind="fix-regress"))
+    # empty argument at the position of the last formal parameter, excess arguments, SHIFT (seed C11-a)
+    for call in ("4,,6", "4,,6,8", ",,6", "4,", "1,2,,3", "4,,,6"):
+        out.append(mk("z80", Z + "m macro a,b\n db a+0,b+0,ARGCOUNT\n shift\n db a+0,b+0,ARGCOUNT\n db \"<ALLARGS>\"\n"
+                      " shift\n db a+0,b+0,ARGCOUNT\n db \"<ALLARGS>\"\n endm\n m " + call + "\n", kind="shift-holes"))
+        out.append(mk("z80", Z + "m macro a,b=7\n db a+0,b+0\n shift\n db a+0,b+0\n shift\n db a+0,b+0\n endm\n m "
+                      + call + "\n", kind="shift-holes"))
     out.append(mk("z80", Z + ' db 1\n irpc c,""\n db 9\n endm\n db 2\n', kind="fix-regress"))
     out.append(mk("z80", Z + " irp F,1,2\n db F\n exitm\n endm\n db 9\n", kind="fix-regress"))
     out.append(mk("z80", Z + ' irpn 2,F,G,1,2,3\n db F\n if "G"=""\n exitm\n endif\n endm\n db 9\n', kind="fix-regress"))
